@@ -12,6 +12,7 @@
 ###############################################################################
 import logging
 import operator
+import queue
 from multiprocessing import Process, Queue
 from typing import Any, Callable, Dict, Iterator, List, Optional
 
@@ -88,11 +89,15 @@ class MultiprocessingSolver(Solver):
 
     def solve(self) -> Iterator[NDArray]:
         solutions: Queue = Queue()
-        for proc_idx, solver in enumerate(self.solvers):
-            Process(target=solver.solve_and_queue, args=(proc_idx, solutions)).start()
+        processes = [
+            Process(target=solver.solve_and_queue, args=(proc_idx, solutions))
+            for proc_idx, solver in enumerate(self.solvers)
+        ]
+        for process in processes:
+            process.start()
         nb = len(self.solvers)
         while nb > 0:
-            proc_idx, solution, statistics = solutions.get()
+            proc_idx, solution, statistics = get_message(solutions, processes)
             self.statistics[proc_idx] = statistics
             if solution is None:
                 nb -= 1
@@ -107,18 +112,46 @@ class MultiprocessingSolver(Solver):
 
     def optimize(self, variable_idx: int, proc_func_name: str, comparison_func: Callable) -> Optional[NDArray]:
         solutions: Queue = Queue()
-        for proc_idx, solver in enumerate(self.solvers):
-            Process(target=(getattr(solver, proc_func_name)), args=(variable_idx, proc_idx, solutions)).start()
+        processes = [
+            Process(target=(getattr(solver, proc_func_name)), args=(variable_idx, proc_idx, solutions))
+            for proc_idx, solver in enumerate(self.solvers)
+        ]
+        for process in processes:
+            process.start()
         best_solution = None
         nb = len(self.solvers)
         while nb > 0:
-            proc_idx, solution, statistics = solutions.get()
+            proc_idx, solution, statistics = get_message(solutions, processes)
             self.statistics[proc_idx] = statistics
             if solution is None:
                 nb -= 1
             elif best_solution is None or comparison_func(solution[variable_idx], best_solution[variable_idx]):
                 best_solution = solution
         return best_solution
+
+
+def get_message(solutions: Queue, processes: List[Process], timeout: float = 1.0) -> Any:
+    """
+    Gets the next message of the workers, raises an error if a worker died before announcing its completion.
+    :param solutions: the queue of messages
+    :param processes: the worker processes
+    :param timeout: the polling period in seconds
+    :return: a message
+    """
+    while True:
+        try:
+            return solutions.get(timeout=timeout)
+        except queue.Empty:
+            crashed = [process for process in processes if process.exitcode not in (None, 0)]
+            if len(crashed) == 0 and any(process.is_alive() for process in processes):
+                continue
+            try:
+                return solutions.get(timeout=timeout)  # what the workers sent just before exiting
+            except queue.Empty:
+                for process in processes:
+                    if process.is_alive():
+                        process.terminate()
+                raise RuntimeError("a worker process terminated before announcing its completion")
 
 
 def sum_stats(stats: List[Any], index: int) -> int:
